@@ -362,6 +362,40 @@ def gen_ShardLayout():
     ]:
         if p not in sb:
             raise TranslateError("search_on_sorted_u64s statement changed: %r" % p)
+    # chunk_hash_dedup_query_direct / chunk_hash_dedup_query: the statements Model/Shard.v (dedup_direct, direct_loop) transcribes
+    dq = sf.fn_body("chunk_hash_dedup_query_direct")
+    for p in [
+        "if unkeyed_query_hashes.is_empty() { return Ok(None); }",
+        "self.metadata.cas_info_offset + (MDB_CAS_INFO_ENTRY_SIZE as u64) * (cas_entry_index as u64),",
+        "if cas_chunk_offset != 0 { reader.seek(SeekFrom::Current(MDB_CAS_INFO_ENTRY_SIZE as i64 * cas_chunk_offset as i64))?; }",
+        "if first_chunk.chunk_hash != self.keyed_chunk_hash(unkeyed_query_hashes[0]) { return Ok(None); }",
+        "let mut n_bytes = first_chunk.unpacked_segment_bytes;",
+        "for i in 1.. { if cas_chunk_offset as usize + i == cas_header.num_entries as usize { end_idx = i; break; }",
+        "if i == unkeyed_query_hashes.len() || chunk.chunk_hash != self.keyed_chunk_hash(unkeyed_query_hashes[i]) { end_idx = i; break; }",
+        "n_bytes += chunk.unpacked_segment_bytes;",
+        "cas_hash: cas_header.cas_hash, cas_flags: cas_header.cas_flags, unpacked_segment_bytes: n_bytes, chunk_index_start: cas_chunk_offset, chunk_index_end: cas_chunk_offset + end_idx as u32,",
+    ]:
+        if p not in dq:
+            raise TranslateError("chunk_hash_dedup_query_direct statement changed: %r" % p)
+    dq2 = sf.fn_body("chunk_hash_dedup_query")
+    for p in ["if query_hashes.is_empty() || self.metadata.chunk_lookup_num_entry == 0 { return Ok(None); }",
+              "for &(cas_index, chunk_offset) in dest_indices.iter().take(num_indices) { if let Some(cas) = self.chunk_hash_dedup_query_direct(reader, query_hashes, cas_index, chunk_offset)? { return Ok(Some(cas)); } }"]:
+        if p not in dq2:
+            raise TranslateError("chunk_hash_dedup_query statement changed: %r" % p)
+    kh = sf.fn_body("keyed_chunk_hash")
+    if "if self.metadata.chunk_hash_hmac_key != HMACKey::default() { chunk_hash.hmac(self.metadata.chunk_hash_hmac_key) } else { chunk_hash }" not in kh:
+        raise TranslateError("keyed_chunk_hash changed")
+    gf = sf.fn_body("get_file_reconstruction_info")
+    for p in ["for &file_entry_index in dest_indices.iter().take(num_indices) {", "if mdb_file_info.metadata.file_hash == *file_hash { return Ok(Some(mdb_file_info)); }"]:
+        if p not in gf:
+            raise TranslateError("get_file_reconstruction_info statement changed: %r" % p)
+    im2 = Src(os.path.join(REPO, "mdb_shard/src/shard_in_memory.rs"))
+    mq = im2.fn_body("chunk_hash_dedup_query")
+    for p in ["let (chunk_ref, chunk_index_start) = self.chunk_hash_lookup.get(&query_hashes[0])?;",
+              "if chunk_index_start + query_idx >= chunk_ref.chunks.len() { break; }",
+              "if query_idx >= query_hashes.len() || chunk_ref.chunks[chunk_index_start + query_idx].chunk_hash != query_hashes[query_idx] { break; }"]:
+        if p not in mq:
+            raise TranslateError("in-memory chunk_hash_dedup_query statement changed: %r" % p)
     # pinned shapes the hand model transcribes
     fs.pin("file_hash: [!0u64; 4].into(),", "file bookend")
     cs.pin("cas_hash: [!0u64; 4].into(),", "cas bookend")
@@ -424,10 +458,141 @@ def gen_ShardFacts():
     return "".join(out), {im.path: im.digest, fh.path: fh.digest, ex.path: ex.digest}
 
 
+def ident_const(src, name):
+    m = src.one(r"const %s\s*:\s*CasObjectIdent\s*=\s*\[([^\]]*)\];" % re.escape(name), "ident " + name)
+    vals = []
+    for v in m.group(1).split(","):
+        v = v.strip()
+        if not v:
+            continue
+        bm = re.fullmatch(r"b'(.)'", v)
+        vals.append(ord(bm.group(1)) if bm else int(v))
+    if len(vals) != 7:
+        raise TranslateError("%s is not 7 bytes" % name)
+    return vals
+
+
+def call_seq(body, pat):
+    return [m.group(0) for m in re.finditer(pat, body)]
+
+
+def gen_XorbLayout():
+    of = Src(os.path.join(REPO, "cas_object/src/cas_object_format.rs"))
+    cf = Src(os.path.join(REPO, "cas_object/src/cas_chunk_format.rs"))
+    cs = Src(os.path.join(REPO, "cas_object/src/compression_scheme.rs"))
+    mc = Src(os.path.join(REPO, "merkledb/src/constants.rs"))
+    vs = Src(os.path.join(REPO, "cas_object/src/validate_xorb_stream.rs"))
+    out = [PRELUDE]
+    for nm in ["CAS_OBJECT_FORMAT_IDENT", "CAS_OBJECT_FORMAT_IDENT_HASHES", "CAS_OBJECT_FORMAT_IDENT_BOUNDARIES"]:
+        out.append("Definition %s : list N := [%s].\n" % (nm, "; ".join(map(str, ident_const(of, nm)))))
+    for nm in ["CAS_OBJECT_FORMAT_VERSION_V0", "CAS_OBJECT_FORMAT_VERSION", "CAS_OBJECT_FORMAT_HASHES_VERSION",
+               "CAS_OBJECT_FORMAT_BOUNDARIES_VERSION_NO_UNPACKED_INFO", "CAS_OBJECT_FORMAT_BOUNDARIES_VERSION", "CAS_OBJECT_INFO_DEFAULT_LENGTH"]:
+        out.append("Definition %s : N := %d.\n" % (nm, rust_int(plain_const(of, nm))))
+    out.append("Definition CHUNK_CURRENT_VERSION : N := %d.\n" % rust_int(plain_const(cf, "CURRENT_VERSION")))
+    tcs = rust_int(plain_const(mc, "TARGET_CDC_CHUNK_SIZE"))
+    mul = rust_int(plain_const(mc, "MAXIMUM_CHUNK_MULTIPLIER"))
+    mc.pin("pub const MAXIMUM_CHUNK_SIZE: usize = TARGET_CDC_CHUNK_SIZE * MAXIMUM_CHUNK_MULTIPLIER;", "MAXIMUM_CHUNK_SIZE")
+    out.append("Definition MAXIMUM_CHUNK_SIZE : N := %d.\n" % (tcs * mul))
+    ideal = rust_int(plain_const(mc, "IDEAL_CAS_BLOCK_SIZE"))
+    of.pin("const AVERAGE_NUM_CHUNKS_PER_XORB: usize = IDEAL_CAS_BLOCK_SIZE / TARGET_CDC_CHUNK_SIZE;", "AVERAGE_NUM_CHUNKS_PER_XORB")
+    of.pin("declared_size.min(AVERAGE_NUM_CHUNKS_PER_XORB * 9 / 8)", "prealloc bound")
+    out.append("Definition PREALLOC_MAX_CHUNKS : N := %d.\n" % ((ideal // tcs) * 9 // 8))
+    # scheme numbering
+    m = cs.one(r"pub enum CompressionScheme \{ (?:#\[default\] )?None = (\d+), LZ4 = (\d+), ByteGrouping4LZ4 = (\d+), \}", "scheme numbering")
+    if [m.group(1), m.group(2), m.group(3)] != ["0", "1", "2"]:
+        raise TranslateError("compression scheme numbering changed")
+    out.append("Definition MAX_SCHEME : N := 2.\n")
+    # chunk header validation and layout
+    vb = impl_fn_body(cf, "CASChunkHeader", "validate")
+    for p in ["if self.version > CURRENT_VERSION {", "if self.get_compressed_length() as usize > MAXIMUM_CHUNK_SIZE * 2 {", "if self.get_uncompressed_length() as usize > MAXIMUM_CHUNK_SIZE {"]:
+        if p not in vb:
+            raise TranslateError("CASChunkHeader::validate changed: %r" % p)
+    cf.pin("w.write_all(&[chunk_header.version])?; w.write_all(&chunk_header.compressed_length)?; w.write_all(&[chunk_header.compression_scheme])?; w.write_all(&chunk_header.uncompressed_length)", "chunk header write order")
+    cf.pin("pub version: u8, compressed_length: [u8; 3], compression_scheme: u8, uncompressed_length: [u8; 3],", "chunk header struct layout")
+    sc = cf.fn_body("serialize_chunk")
+    for p in ["let (compression_scheme, compressed) = if compressed.len() >= chunk.len() { (CompressionScheme::None, chunk.into()) } else { (compression_scheme, compressed) };",
+              "let header = CASChunkHeader::new(compression_scheme, compressed.len() as u32, chunk.len() as u32);",
+              "Ok(size_of::<CASChunkHeader>() + compressed.len())"]:
+        if p not in sc:
+            raise TranslateError("serialize_chunk changed: %r" % p)
+    dc = cf.fn_body("deserialize_chunk_to_writer")
+    for p in ["let mut compressed_data_reader = reader.take(header.get_compressed_length().into());",
+              "if uncompressed_len != header.get_uncompressed_length() as u64 {",
+              "Ok((header.get_compressed_length() as usize + CAS_CHUNK_HEADER_LENGTH, uncompressed_len as u32))"]:
+        if p not in dc:
+            raise TranslateError("deserialize_chunk_to_writer changed: %r" % p)
+    # compression dispatch
+    for fn, pats in [("compress_from_slice", ["CompressionScheme::None => data.into(),", "CompressionScheme::LZ4 => lz4_compress_from_slice(data).map(Cow::from)?,", "CompressionScheme::ByteGrouping4LZ4 => bg4_lz4_compress_from_slice(data).map(Cow::from)?,"]),
+                     ("decompress_from_slice", ["CompressionScheme::None => data.into(),", "CompressionScheme::LZ4 => lz4_decompress_from_slice(data).map(Cow::from)?,", "CompressionScheme::ByteGrouping4LZ4 => bg4_lz4_decompress_from_slice(data).map(Cow::from)?,"]),
+                     ("decompress_from_reader", ["CompressionScheme::None => copy(reader, writer)?,", "CompressionScheme::LZ4 => lz4_decompress_from_reader(reader, writer)?,", "CompressionScheme::ByteGrouping4LZ4 => bg4_lz4_decompress_from_reader(reader, writer)?,"])]:
+        b = impl_fn_body(cs, "CompressionScheme", fn)
+        for p in pats:
+            if p not in b:
+                raise TranslateError("CompressionScheme::%s changed: %r" % (fn, p))
+    if "let groups = bg4_split(data);" not in cs.fn_body("bg4_lz4_compress_from_slice") or "let regrouped = bg4_regroup(&g);" not in cs.fn_body("bg4_lz4_decompress_from_reader"):
+        raise TranslateError("bg4 wiring changed")
+    # footer write/read order
+    sb = impl_fn_body(of, "CasObjectInfoV1", "serialize")
+    wseq = call_seq(sb, r"write_(?:bytes|u8|u32|u32s|hash)\(w, &?(?:self\.)?\w+\)")
+    want = ["write_bytes(w, &self.ident)", "write_u8(w, self.version)", "write_hash(w, &self.cashash)", "write_bytes(w, &self.ident_hash_section)",
+            "write_u8(w, self.hashes_version)", "write_u32(w, self.num_chunks)", "write_hash(w, hash)", "write_bytes(w, &self.ident_boundary_section)",
+            "write_u8(w, self.boundaries_version)", "write_u32(w, self.num_chunks)", "write_u32s(w, &self.chunk_boundary_offsets)",
+            "write_u32s(w, &self.unpacked_chunk_offsets)", "write_u32(w, self.num_chunks)", "write_u32(w, self.hashes_section_offset_from_end)",
+            "write_u32(w, self.boundary_section_offset_from_end)", "write_bytes(w, &self._buffer)"]
+    if wseq != want:
+        raise TranslateError("CasObjectInfoV1::serialize write order changed: %r" % wseq)
+    db = impl_fn_body(of, "CasObjectInfoV1", "deserialize")
+    rseq = call_seq(db, r"(?:read_bytes\(r, &mut s\.\w+\)|s\.\w+ = read_(?:u8|u32|hash)\(r\)|let \w+ = read_u32\(r\)|push\(read_(?:u32|hash)\(r\)\?\))")
+    wantr = ["read_bytes(r, &mut s.ident)", "s.version = read_u8(r)", "s.cashash = read_hash(r)", "read_bytes(r, &mut s.ident_hash_section)", "s.hashes_version = read_u8(r)",
+             "let num_chunks_2 = read_u32(r)", "push(read_hash(r)?)", "read_bytes(r, &mut s.ident_boundary_section)", "s.boundaries_version = read_u8(r)",
+             "let num_chunks_3 = read_u32(r)", "push(read_u32(r)?)", "push(read_u32(r)?)", "s.num_chunks = read_u32(r)", "s.hashes_section_offset_from_end = read_u32(r)",
+             "s.boundary_section_offset_from_end = read_u32(r)", "read_bytes(r, &mut s._buffer)"]
+    if rseq != wantr:
+        raise TranslateError("CasObjectInfoV1::deserialize read order changed: %r" % rseq)
+    for p in ["if s.ident != CAS_OBJECT_FORMAT_IDENT {", "if s.version == CAS_OBJECT_FORMAT_VERSION_V0 {", "} else if s.version != CAS_OBJECT_FORMAT_VERSION {",
+              "if s.ident_hash_section != CAS_OBJECT_FORMAT_IDENT_HASHES {", "if s.hashes_version != CAS_OBJECT_FORMAT_HASHES_VERSION {",
+              "if s.ident_boundary_section != CAS_OBJECT_FORMAT_IDENT_BOUNDARIES {", "if s.boundaries_version != CAS_OBJECT_FORMAT_BOUNDARIES_VERSION {",
+              "if num_chunks_2 != num_chunks_3 {", "if s.num_chunks != num_chunks_2 {",
+              "if end_byte_offset - hash_section_begin_byte_offset != s.hashes_section_offset_from_end as usize {",
+              "if end_byte_offset - boundary_section_begin_byte_offset != s.boundary_section_offset_from_end as usize {"]:
+        if p not in db:
+            raise TranslateError("CasObjectInfoV1::deserialize check changed: %r" % p)
+    # validators: the statements the model transcribes
+    vb2 = impl_fn_body(of, "CasObject", "validate_cas_object")
+    for p in ["let Some(cas) = CasObject::deserialize(reader).ok_for_format_error()? else { return Ok(None); };",
+              "if *cas.info.chunk_hashes.get(idx as usize).unwrap() != chunk_hash {",
+              "if (start_offset + compressed_chunk_length as u32) != boundary {", "start_offset = boundary;",
+              "if cas.info.boundaries_version == CAS_OBJECT_FORMAT_BOUNDARIES_VERSION && unpacked_chunk_offset != *cas.info.unpacked_chunk_offsets.get(idx as usize).unwrap() {",
+              "if cur_position != expected_position || cur_position != expected_from_end_position {",
+              "if *ret.hash() != *hash || *ret.hash() != cas.info.cashash {"]:
+        if p not in vb2:
+            raise TranslateError("validate_cas_object changed: %r" % p)
+    sv = vs.fn_body("_validate_cas_object_from_async_read")
+    for p in ["if bytes_read == 0 {", "if bytes_read != size_of_val(&buf8) {", "if buf8[..CAS_OBJECT_FORMAT_IDENT.len()] == CAS_OBJECT_FORMAT_IDENT {",
+              "if version > CAS_OBJECT_FORMAT_VERSION {", "if version == CAS_OBJECT_FORMAT_VERSION {", "} else if version == CAS_OBJECT_FORMAT_VERSION_V0 {",
+              "if chunk_uncompressed_expected_len != uncompressed_chunk_data.len() {", "if cas_object_info.cashash != *hash {",
+              "if cas_object_info.num_chunks as usize != chunk_hash_and_size.len() {", "if cas_object_info.chunk_boundary_offsets != compressed_chunk_boundary_offsets {",
+              "if cas_object_info.chunk_hashes.len() != chunk_hash_and_size.len() {", "if parsed != &computed_chunk.hash {", "if *parsed != prefixsum {",
+              "if ret.hash() != hash {"]:
+        if p not in sv:
+            raise TranslateError("streaming validator changed: %r" % p)
+    # boundaries-only parser: checked arithmetic and clamped allocation?
+    bo = impl_fn_body(of, "CasObjectInfoV1", "deserialize_only_boundaries_section")
+    if "boundary_section_offset_from_end += size_of::<u32>() as u32;" in bo and "s.chunk_boundary_offsets.resize(num_chunks_boundaries_section as usize, 0);" in bo:
+        checked = "false"
+    elif "checked_add(size_of::<u32>() as u32)" in bo and "prealloc_num_chunks(num_chunks_boundaries_section as usize)" in bo and ".resize(" not in bo:
+        checked = "true"
+    else:
+        raise TranslateError("deserialize_only_boundaries_section: unrecognised shape")
+    out.append("Definition boundaries_only_checked : bool := %s.\n" % checked)
+    return "".join(out), {x.path: x.digest for x in (of, cf, cs, mc, vs)}
+
+
 GROUPS = {
     "GearTable": gen_GearTable,
     "ChunkConsts": gen_ChunkConsts,
     "HashConsts": gen_HashConsts,
     "ShardLayout": gen_ShardLayout,
     "ShardFacts": gen_ShardFacts,
+    "XorbLayout": gen_XorbLayout,
 }
